@@ -717,8 +717,16 @@ def _classify_o1(parsed_files, tree_bag, miss, extra):
     if len(parsed_files) > 1 and glued == tree_bag:
         return "lost-at-file-boundary"
     if all(tok in QUALS for tok, _ in miss):
-        a = L.bag(_strip_f7_positions(L.normalise(L.scan("\n".join(parsed_files))[0])))
-        if a == tree_bag:
+        toks = L.normalise(L.scan("\n".join(parsed_files))[0])
+        stripped = _strip_f7_positions(toks)
+        if L.bag(stripped) == tree_bag:
+            return "dropped-qualifiers:template-list-or-typedef"
+        # several corruptions may have put qualifiers at such positions AND elsewhere (a stray `typedef` in
+        # front of a constructor makes its `const` arguments look like typedef qualifiers): the loss is the
+        # listed one if every missing qualifier can be one of those that sit at the listed positions
+        at_f7, _ = L.bag_diff(L.bag(toks), L.bag(stripped))
+        at_f7 = dict(at_f7)
+        if all(n <= at_f7.get(tok, 0) for tok, n in miss):
             return "dropped-qualifiers:template-list-or-typedef"
         return "dropped-qualifiers:elsewhere"
     return "tokens-lost"
